@@ -631,7 +631,9 @@ def form_ir_sample(repo, nargs, part, itg=None):
     els = [Node("Element", basix_hash=_PyCall(lambda h_=h: h_)) for h in (11, 22, 33, 44)]
     elA = Node("Element", basix_hash=_PyCall(lambda: 99))
     args = [Node("Argument", name=f"a{i}", ufl_function_space=_PyCall(lambda: V), ufl_element=_PyCall(lambda e_=els[i]: e_)) for i in range(nargs)]
-    consts = [Node("Constant", name="k0", ufl_shape=()), Node("Constant", name="k1", ufl_shape=(2, 3)), Node("Constant", name="k2", ufl_shape=(2,))]
+    from ..npmodel import NPInt
+    # k2's shape was given as NumPy integers (shape=(np.int64(2),)), as mesh-derived sizes often are
+    consts = [Node("Constant", name="k0", ufl_shape=()), Node("Constant", name="k1", ufl_shape=(2, 3)), Node("Constant", name="k2", ufl_shape=(NPInt(2),))]
     coefs = [Node("Coefficient", name="B", ufl_element=_PyCall(lambda: els[2])), Node("Coefficient", name="C", ufl_element=_PyCall(lambda: els[3]))]
     # the original form has a further coefficient A (first position) that preprocessing eliminated: reduced_coefficients = [B, C]
     coefA = Node("Coefficient", name="A", ufl_element=_PyCall(lambda: elA))
@@ -709,6 +711,17 @@ def form_ir_sources(repo, res):
             if got_n != want:
                 res.fail(key, f"FormIR.{fld} of a sample {label} is {got!r}, expected {want!r}" + (f" ({why[fld]})" if fld in why else ""), rep.line(g.node))
                 break
+    key = f"{g.key}:ir[constant_shapes]:plain-integers"
+    res.ob(key)
+    for label, out in results.items():
+        if isinstance(out, str):
+            continue
+        bad = [x for sh in out.f.get("constant_shapes", []) for x in sh if type(x) is not int]
+        if bad:
+            res.fail(key, f"FormIR.constant_shapes of a sample {label} keeps the NumPy integer {bad[0]!r} of a constant declared with shape=(np.int64(2),): both form "
+                     f"generators print the shape with str(tuple), which gives `{bad[0]!r},` - not a C initialiser (\"'np' undeclared\") and not importable Python",
+                     rep.line(g.node))
+            break
     key = f"{g.key}:ir[finite_element_hashes]"
     res.ob(key)
     for label, (nargs, part) in cases.items():
